@@ -21,7 +21,13 @@ func normalizeNodeURI(nodeURI, nodeID, defaultHost, defaultPort string) (string,
 			return "", err
 		}
 
-		if h := uri.Hostname(); h != "" && !isUnspecifiedHost(h) {
+		if uri.User == nil && isNodeID(uri.Hostname()) {
+			// enode://<id> without an address: what looks like the host to
+			// the URL parser is the node ID, not somewhere to dial.
+			if uri.Hostname() != nodeID {
+				return "", fmt.Errorf("nodeID %q does not match nodeURI: %s", pretty.Abbrev(nodeID), nodeURI)
+			}
+		} else if h := uri.Hostname(); h != "" && !isUnspecifiedHost(h) {
 			host = h
 		}
 
@@ -44,6 +50,19 @@ func normalizeNodeURI(nodeURI, nodeID, defaultHost, defaultPort string) (string,
 		Host:   net.JoinHostPort(host, port), // Adds brackets around IPv6 literals
 	}
 	return u.String(), nil
+}
+
+// isNodeID returns true if s has the shape of a node ID (128 hex digits).
+func isNodeID(s string) bool {
+	if len(s) != 128 {
+		return false
+	}
+	for _, c := range s {
+		if !(c >= '0' && c <= '9' || c >= 'a' && c <= 'f' || c >= 'A' && c <= 'F') {
+			return false
+		}
+	}
+	return true
 }
 
 // isUnspecifiedHost returns true if the host is an unspecified IP address
